@@ -130,6 +130,31 @@ def gen_script(rnd, tier):
         cls[c] = (pyb, dec, only)
         L.append("class %d %d : %s | %s" % (c, only, " ".join(map(str, pyb)), " ".join(map(str, dec))))
 
+    # "in any order relative to subclass creation": a class with subclasses is given a further declaration LATER -- typically an
+    # interface one of its subclasses already declares itself (the subclass then names it AND inherits it; iteration still yields it once)
+    late = []
+    for c in range(1, nc + 1):
+        subs = [k for k in cls if c in cls[k][0]]
+        if not subs or rnd.random() < 0.45:
+            continue
+        have = expand_cls(ib, cls, c)
+        below = [d for k in cls if k != c and c in class_anc(cls, k) for d in cls[k][1]]
+        # ... naming nothing the class already implies (it would be dropped, C01) and nothing that extends an interface the class
+        # declares itself (classImplements puts such an interface IN FRONT of the earlier ones: "declared" is then not call order)
+        cand = [d for d in (below if below and rnd.random() < 0.8 else range(1, n + 1))
+                if not any(d in c03.reach(ib, x) for x in have) and not any(b in c03.reach(ib, d) for b in cls[c][1])]
+        if not cand:
+            continue
+        d = rnd.choice(cand)
+        pyb, dec, only = cls[c]
+        cls[c] = (pyb, dec + [d], only)
+        late.append(c)
+        L.append("cimpl %d : %d" % (c, d))
+    for c in range(1, nc + 1):
+        if late or rnd.random() < 0.3:
+            L.append("iter c%d" % c)
+            L.append("memall c%d" % c)
+
     def rel(x):
         r = [j for j in range(1, n + 1) if x in c03.reach(ib, j) or j in c03.reach(ib, x)]
         return rnd.choice(r)
@@ -150,6 +175,8 @@ def gen_script(rnd, tier):
                     if dis.get(y) and rnd.random() < 0.6:
                         up = dis[y]
                     x = rnd.choice(up) if up and rnd.random() < 0.75 else rel(y)
+                if rnd.random() < 0.04:
+                    x = 0             # `Interface` itself named in a declaration: everything extends it
                 cur.append(x)
                 toks.append("i%d" % x)
             elif r < 0.65 and nc:
@@ -195,6 +222,13 @@ def gen_script(rnd, tier):
 
 
 # ---- the statement, in the harness's own words -------------------------------------------------------------------
+
+def class_anc(cls, k):
+    out = set()
+    for b in cls[k][0]:
+        out |= {b} | class_anc(cls, b)
+    return out
+
 
 def expand_cls(ib, cls, c):
     pyb, dec, only = cls[c]
@@ -408,11 +442,17 @@ def oracle(chk, lines, outs):
             rest = f[4:]
             k = rest.index("|")
             cls[int(f[1])] = ([int(x) for x in rest[:k]], [int(x) for x in rest[k + 1:]], f[2] == "1")
+        elif f[0] == "cimpl":
+            pyb, dec, only = cls[int(f[1])]
+            cls[int(f[1])] = (pyb, dec + [int(x) for x in f[3:]], only)
+            chk.count("late_class_declarations")
         elif f[0] == "decl":
             decls[f[1]] = dedupe(flatten(ib, cls, parse(f[3:])[0]))
             bases_of[f[1]] = atoms(ib, cls, parse(f[3:])[0])
 
         def it(nm):
+            if nm[0] == "c" and nm[1:].isdigit():
+                return expand_cls(ib, cls, int(nm[1:]))
             return [int(nm[1:])] if nm[0] == "i" and nm[1:].isdigit() else decls[nm]
 
         def ext(a, b):       # a is or extends b
@@ -421,7 +461,11 @@ def oracle(chk, lines, outs):
         got = [int(x) for x in out.split()] if f[0] in ("iter", "memall", "sub", "add", "flat") else None
         if f[0] == "iter":
             chk.count("iterations_judged")
-            if got != it(f[1]):
+            if 0 in it(f[1]):
+                chk.count("declarations_naming_Interface_itself")
+            if len(set(got)) != len(got):
+                bad.append((i, "list(%s) = %s yields an interface twice" % (f[1], got)))
+            elif got != it(f[1]):
                 bad.append((i, "list(%s) = %s, the interfaces it was built from, flattened in place and without duplicates, are %s" % (f[1], got, it(f[1]))))
         elif f[0] == "memall":
             if got != sorted(it(f[1])):
